@@ -4,7 +4,7 @@ import "bytes"
 
 // LoginStep is one step of a login dialogue script.
 type LoginStep struct {
-	Kind string `json:"kind"` // banner | askuser | askpass | askpassphrase | ssherr | shell | silence
+	Kind string `json:"kind"` // banner | askuser | askpass | askpassphrase | ssherr | shell | silence | eof
 	Text string `json:"text"` // what the device prints for this step (prompt spelling, banner, error line)
 }
 
@@ -14,6 +14,7 @@ type Login struct {
 	Steps    []LoginStep
 	Inner    Reactor
 	EchoUser bool
+	OnEOF    func() // called (under the device mutex) when the script says the peer closes the stream
 
 	idx   int
 	state string // "" | askuser | askpass | askpassphrase | shell | silence | end
@@ -44,6 +45,14 @@ func (l *Login) advance(out *bytes.Buffer) {
 			return
 		case "silence":
 			l.state = "silence"
+
+			return
+		case "eof":
+			// the peer drops the connection: everything printed so far is delivered, then reads see end-of-stream
+			l.state = "eof"
+			if l.OnEOF != nil {
+				l.OnEOF()
+			}
 
 			return
 		}
